@@ -46,13 +46,13 @@ Proof. vm_compute. reflexivity. Qed.
    conts_of (the OContinue outputs of the specification parser on carry ++ bytes read), appended to the
    connection's unsent output; C08's progress theorems then deliver them without the body being sent *)
 Theorem C13_server_transfer : forall BUF, (2 <= BUF)%nat -> N.of_nat BUF < U32_LIMIT ->
-  forall w toks fd w' ys x ph,
+  forall w toks fd kk w' ys x ph,
   Inv BUF w toks -> alookup fd (w_conns w) = Some x -> CInv BUF (sc_conn x) ph ->
   k_tosrv (client_of w (sc_client x)) <> [] ->
-  handle_event BUF w (EvIn fd) = inl (w', ys) ->
+  handle_event BUF w (EvIn fd kk) = inl (w', ys) ->
   let c := sc_conn x in
   let t := k_tosrv (client_of w (sc_client x)) in
-  let d := firstn (Nat.min (BUF - length (c_win c)) (length t)) t in
+  let d := firstn (read_amount kk (BUF - length (c_win c)) (length t)) t in
   d <> [] /\
   exists y, alookup fd (w_conns w') = Some y /\ sc_gid y = sc_gid x /\ sc_client y = sc_client x /\
     k_tosrv (client_of w' (sc_client x)) = skipn (length d) t /\
